@@ -108,7 +108,10 @@ class Driver:
 
     def account(self):
         """the account's REPORTED valuation: (net value, wallet value, this market's net value)."""
-        a = self.broker.get_account_status(self.prices)
+        try:
+            a = self.broker.get_account_status(self.prices)
+        except Exception as e:  # a corrupted position makes the valuation itself raise: reported by the caller as C13/C01
+            raise ViewError(f"Broker.get_account_status raised {type(e).__name__}: {e}") from e
         return frac(Decimal(a.net_value)), frac(Decimal(a.asset_value)), frac(Decimal(a.market_status[self.market.market_info].net_value))
 
     # ---- events -------------------------------------------------------------------------------
@@ -232,6 +235,10 @@ def cmp_q(code, spec, rel=REL, abs_=Fraction(0)):
     if is_inf(code) or (isinstance(code, Decimal) and code.is_nan()):
         return False
     return close(code, spec, rel, abs_)
+
+
+class ViewError(Exception):
+    pass
 
 
 class Mismatch:
@@ -489,7 +496,10 @@ def replay_path(uni: Universe, scn, steps, read_mode, tally, probes=None, probe_
             return [Mismatch("C10", "scenario_prefix", f"scenario prefix event {ev} raised {exc}")], -1
     for i, (ev, out, acts, st, view) in enumerate(steps):
         before = drv.snapshot()
-        nv0 = drv.account()[0]
+        try:
+            nv0 = drv.account()[0]
+        except ViewError as e:
+            return [Mismatch("C13", "view_raises", str(e)), Mismatch("C01", "account_status_raises", str(e))], i
         px0 = drv.u.rows[drv.row - 1]["px"]
         touched = before[0]
         o, exc, new = drv.apply(ev)
@@ -498,7 +508,11 @@ def replay_path(uni: Universe, scn, steps, read_mode, tally, probes=None, probe_
             # C03: frozen market - no value creation beyond wallet dust; Aave operations conserve net value exactly up to dust
             # (the reported Aave value is quantised to 1e-4 on supplies and debts: 2e-4 absolute)
             tally("C03/aave_value_conserved")
-            nv1 = drv.account()[0]
+            try:
+                nv1 = drv.account()[0]
+            except ViewError as e:
+                mm += [Mismatch("C13", "view_raises", str(e)), Mismatch("C01", "account_status_raises", str(e))]
+                nv1 = nv0
             wbal = dict(touched).get(ev.get("t"), Fraction(0))
             dust = Fraction(1, 10 ** 5) * wbal * px0.get(ev.get("t"), Fraction(0)) + Fraction(2, 10 ** 4)
             if nv1 - nv0 > dust:
@@ -519,6 +533,10 @@ def replay_path(uni: Universe, scn, steps, read_mode, tally, probes=None, probe_
             mm.append(Mismatch("C12", "update_raises", f"update() raised {exc}"))
         elif o != out:
             mm.append(Mismatch(OUTCOME_OWNER[ev["op"]], "outcome", f"{ev['op']} {fmt_ev(ev)}: code {o} ({exc}), spec {out}"))
+        if mm and ev["op"] != "update":
+            # the step already deviates (another clause): the positions are still compared with the spec's state after the step, so
+            # that a deviation is also reported under the clause that owns the positions (C10)
+            mm += compare_state(drv, st, tally)
         if not mm:
             mm += compare_actions(ev, new, acts, tally)
             if ev["op"] != "update":
@@ -535,7 +553,10 @@ def replay_path(uni: Universe, scn, steps, read_mode, tally, probes=None, probe_
         if not mm:
             # C01: the reported net value equals wallet x prices + (supplies - debts) valued by the specification
             tally("C01/aave_net_value")
-            nv, av, mv = drv.account()
+            try:
+                nv, av, mv = drv.account()
+            except ViewError as e:
+                return [Mismatch("C13", "view_raises", str(e)), Mismatch("C01", "account_status_raises", str(e))], i
             px = drv.u.rows[st["row"] - 1]["px"]
             spec_av = sum((Q(st["w"][t]) * px[t] for t in drv.u.tokens), Fraction(0))
             spec_mv = Q(view["bal_net_value"])
